@@ -353,20 +353,16 @@ func (h *l2) proposeOne() error {
 			req.Success = append(req.Success, h.g.Op())
 			req.Failure = append(req.Failure, h.g.Op())
 		}
-		before, _ := h.applied()
+		lastBefore := h.lastBehindBarrier()
 		resp, err := h.eng.Txn(ctx, req)
 		if err != nil {
 			return err
 		}
 		rev := resp.Header.Revision
 		if rev == 0 {
-			// (a transaction can report revision 0 — property C10's subject); with a single
-			// proposer the revision is the applied index right after the call
-			after, err := h.applied()
-			if err != nil || after != before+1 {
-				h.mu.Lock()
-				h.tainted = true
-				h.mu.Unlock()
+			// (a transaction can report revision 0 — property C10's subject)
+			after, ok := h.soleNewEntry(lastBefore)
+			if !ok {
 				return nil
 			}
 			rev = after
@@ -410,23 +406,50 @@ func (h *l2) proposeLabelled(ctx context.Context) error {
 	if err != nil {
 		return err
 	}
-	before, berr := h.applied()
+	lastBefore := h.lastBehindBarrier()
 	if _, err := h.eng.NodeHost.SyncPropose(ctx, h.eng.NodeHost.GetNoOPSession(h.shard), b); err != nil {
 		return err
 	}
-	after, aerr := h.applied()
-	if berr != nil || aerr != nil || after != before+1 {
-		// single proposer: anything else means the revision cannot be attributed
-		h.mu.Lock()
-		h.tainted = true
-		h.mu.Unlock()
-		h.r.Note(fmt.Sprintf("labelled proposal %s: applied %d (err %v) -> %d (err %v)", d, before, berr, after, aerr))
+	after, ok := h.soleNewEntry(lastBefore)
+	if !ok {
 		return nil
 	}
 	h.record(after, cmd, d)
 	h.r.Count("l2_proposals", 1)
 	h.r.Count("l2_proposals_stored_with_own_leader_index", 1)
 	return nil
+}
+
+// lastBehindBarrier reads the log's last index behind a linearizable read of the table. A
+// proposal completes when the apply worker is done, the step worker extends the log reader's
+// visible range only afterwards (observed: last 126 while applied 127); the read index request
+// goes through that same step worker, so behind it the range is current. LogServer.Replicate is
+// ordered the same way by its own linearizable LocalIndex.
+func (h *l2) lastBehindBarrier() uint64 {
+	ctx, cancel := context.WithTimeout(context.Background(), 10*time.Second)
+	defer cancel()
+	if _, err := h.tbl.LocalIndex(ctx, true); err != nil {
+		return 0
+	}
+	_, last := h.logRange()
+	return last
+}
+
+// soleNewEntry attributes a completed proposal that reports no revision: with a single proposer
+// the log has grown by exactly one entry and that entry is the applied one. (The state machine's
+// own index cannot serve as "before": it does not move for Raft-internal entries.) Anything else
+// taints the history: contents are then not compared and the history counts as inconclusive.
+func (h *l2) soleNewEntry(lastBefore uint64) (uint64, bool) {
+	lastAfter := h.lastBehindBarrier()
+	after, err := h.applied()
+	if err == nil && lastBefore != 0 && lastAfter == lastBefore+1 && after == lastAfter {
+		return after, true
+	}
+	h.mu.Lock()
+	h.tainted = true
+	h.mu.Unlock()
+	h.r.Note(fmt.Sprintf("proposal without revision not attributable: log last %d -> %d, applied %d (err %v)", lastBefore, lastAfter, after, err))
+	return 0, false
 }
 
 // restoreTable replaces the freshly created table by one restored from a backup stream in the
